@@ -771,7 +771,7 @@ public:
             st.asserts_checked++; st.assert_ids[id]++;
             z3::expr bad = a[0].sym ? (a[0].e == ZC.bv_val(0, a[0].bits)) : ZC.bool_val(a[0].c == 0);
             bad = bad.simplify();
-            if (concreteMode) { s.notes += std::string("assert ") + id + (bad.is_false() ? " ok\n" : " FAIL\n"); }
+            if (concreteMode) { s.notes += std::string("assert ") + id + (bad.is_false() ? " ok\n" : " FAIL\n"); if (!bad.is_false()) reportViolation(s, "assert", id, "assertion " + id + " fails", nullptr); return true; }
             if (bad.is_false()) return true;
             z3::model m(ZC);
             auto r = check(s, &bad, &m);
